@@ -4,6 +4,7 @@
 # The copy lives outside /repo and /verif; VERIF_REPO points the check at it.
 set -e
 PATCH="$1"; ID="$2"; TIER="${3:-quick}"
+case "$PATCH" in -R:*) ;; /*) ;; *) PATCH="$(pwd)/$PATCH" ;; esac
 HERE="$(cd "$(dirname "$0")/.." && pwd)"
 SCRATCH="$(mktemp -d /var/tmp/frv-mut-XXXXXX)"
 trap 'rm -rf "$SCRATCH"' EXIT
